@@ -62,12 +62,17 @@ impl MainState {
                 modes_upd(*old(state), *final(state), my_nick(*old(conn_state)))
                 && final(state).users@[my_nick(*old(conn_state))].modes == (UserModes { oper: true, ..old(state).users@[my_nick(*old(conn_state))].modes }),
             !oper_ok(*self, sk(nick), password@, old(conn_state).user_state.source@) ==> vs_same(*final(state), *old(state)), // @prop C11
-            state_wf(*final(state)), // @prop C19,C04
+            sym(*final(state)), // @prop C04
+            chans_wf(*final(state)), // @prop C04,C08
+            no_empty_chan(*final(state)), // @prop C16
+            wallops_wf(*final(state)), // @prop C11,C06
+            counters_wf(*final(state)), // @prop C19
+            senders_distinct(*final(state)), // @prop C02,C01
             conn_ok(*final(conn_state), *final(state)), // @prop C11
 //@open
         broadcast use group_hash_axioms, bridge;
         proof {
-            assert forall|n: VolatileState| modes_upd(*old(state), n, my_nick(*old(conn_state))) implies #[trigger] state_wf(n) by {
+            assert forall|n: VolatileState| #![trigger state_wf(n)] #![trigger sym(n)] #![trigger chans_wf(n)] #![trigger no_empty_chan(n)] #![trigger wallops_wf(n)] #![trigger counters_wf(n)] #![trigger senders_distinct(n)] modes_upd(*old(state), n, my_nick(*old(conn_state))) implies state_wf(n) by {
                 lemma_modes_upd_wf(*old(state), n, my_nick(*old(conn_state)));
             }
             lemma_opr_update(old(state).users@, my_nick(*old(conn_state)), old(state).users@[my_nick(*old(conn_state))]);
@@ -100,14 +105,19 @@ impl MainState {
             // MODE never confers operator status (it may only drop it)
             final(state).users@[sk(target)].modes.oper ==> old(state).users@[sk(target)].modes.oper, // @prop C11
             final(state).users@[sk(target)].modes.local_oper == old(state).users@[sk(target)].modes.local_oper, // @prop C11
-            state_wf(*final(state)), // @prop C19,C04
+            sym(*final(state)), // @prop C04
+            chans_wf(*final(state)), // @prop C04,C08
+            no_empty_chan(*final(state)), // @prop C16
+            wallops_wf(*final(state)), // @prop C11,C06
+            counters_wf(*final(state)), // @prop C19
+            senders_distinct(*final(state)), // @prop C02,C01
             conn_ok(*final(conn_state), *final(state)), // @prop C11
 //@open
         broadcast use group_hash_axioms, bridge, ax_string_add_assign_req;
         let ghost k = sk(target);
         let ghost o = *old(state);
         proof {
-            assert forall|n: VolatileState| modes_upd(o, n, k) implies #[trigger] state_wf(n) by { lemma_modes_upd_wf(o, n, k); }
+            assert forall|n: VolatileState| #![trigger state_wf(n)] #![trigger sym(n)] #![trigger chans_wf(n)] #![trigger no_empty_chan(n)] #![trigger wallops_wf(n)] #![trigger counters_wf(n)] #![trigger senders_distinct(n)] modes_upd(o, n, k) implies state_wf(n) by { lemma_modes_upd_wf(o, n, k); }
             ax_hashmap_len_bound(o.users);
             o.users@.dom().lemma_len_filter(|n: String| local_oper(o.users@[n].modes));
             o.users@.dom().lemma_len_filter(|n: String| o.users@[n].modes.invisible);
@@ -215,12 +225,17 @@ impl MainState {
                     Reply::ErrNoPrivileges481 { client: str_of(client_name_spec(old(conn_state).user_state)) })),
             // an operator's KILL touches exactly the named user's kill channel, nothing else
             kill_frame(*old(state), *final(state), sk(nickname)), // @prop C11
-            state_wf(*final(state)), // @prop C04
+            sym(*final(state)), // @prop C04
+            chans_wf(*final(state)), // @prop C04,C08
+            no_empty_chan(*final(state)), // @prop C16
+            wallops_wf(*final(state)), // @prop C11,C06
+            counters_wf(*final(state)), // @prop C19
+            senders_distinct(*final(state)), // @prop C02,C01
 //@open
         broadcast use group_hash_axioms, bridge;
         let ghost o = *old(state);
         proof {
-            assert forall|n: VolatileState| kill_frame(o, n, sk(nickname)) implies #[trigger] state_wf(n) by { lemma_kill_frame_wf(o, n, sk(nickname)); }
+            assert forall|n: VolatileState| #![trigger state_wf(n)] #![trigger sym(n)] #![trigger chans_wf(n)] #![trigger no_empty_chan(n)] #![trigger wallops_wf(n)] #![trigger counters_wf(n)] #![trigger senders_distinct(n)] kill_frame(o, n, sk(nickname)) implies state_wf(n) by { lemma_kill_frame_wf(o, n, sk(nickname)); }
         }
 //@close
         proof {
@@ -285,13 +300,18 @@ impl MainState {
             ({ let k = my_nick(*old(conn_state)); // @prop C10
                &&& final(state).users@ == old(state).users@.insert(k, User { away: (if text is Some { Some(sk(text->0)) } else { None }), ..old(state).users@[k] })
                &&& final(state).channels == old(state).channels && state_rest_same(*old(state), *final(state)) }),
-            state_wf(*final(state)), // @prop C04
+            sym(*final(state)), // @prop C04
+            chans_wf(*final(state)), // @prop C04,C08
+            no_empty_chan(*final(state)), // @prop C16
+            wallops_wf(*final(state)), // @prop C11,C06
+            counters_wf(*final(state)), // @prop C19
+            senders_distinct(*final(state)), // @prop C02,C01
 //@open
         broadcast use group_hash_axioms, bridge;
         proof {
             let k = my_nick(*old(conn_state));
-            assert forall|n: VolatileState| n.users@ == old(state).users@.insert(k, User { away: n.users@[k].away, ..old(state).users@[k] })
-                && n.channels == old(state).channels && state_rest_same(*old(state), n) implies #[trigger] state_wf(n) by {
+            assert forall|n: VolatileState| #![trigger state_wf(n)] #![trigger sym(n)] #![trigger chans_wf(n)] #![trigger no_empty_chan(n)] #![trigger wallops_wf(n)] #![trigger counters_wf(n)] #![trigger senders_distinct(n)] n.users@ == old(state).users@.insert(k, User { away: n.users@[k].away, ..old(state).users@[k] })
+                && n.channels == old(state).channels && state_rest_same(*old(state), n) implies state_wf(n) by {
                 lemma_user_field_wf(*old(state), n, k);
             }
         }
